@@ -1,13 +1,22 @@
 //verif:dest internal/server/zz_verif_c02e.go
 //verif:replace@C02e golang.org/x/crypto/ssh.Dial = c02eDial
+//verif:replace@C01i golang.org/x/crypto/ssh.Dial = c02eDial
 //verif:replace@C02e (*golang.org/x/crypto/ssh.Client).NewSession = c02eNewSession
+//verif:replace@C01i (*golang.org/x/crypto/ssh.Client).NewSession = c02eNewSession
 //verif:replace@C02e (*golang.org/x/crypto/ssh.Session).StdinPipe = c02eStdin
+//verif:replace@C01i (*golang.org/x/crypto/ssh.Session).StdinPipe = c02eStdin
 //verif:replace@C02e (*golang.org/x/crypto/ssh.Session).StdoutPipe = c02eStdout
+//verif:replace@C01i (*golang.org/x/crypto/ssh.Session).StdoutPipe = c02eStdout
 //verif:replace@C02e (*golang.org/x/crypto/ssh.Session).Shell = c02eShell
+//verif:replace@C01i (*golang.org/x/crypto/ssh.Session).Shell = c02eShell
 //verif:replace@C02e (*golang.org/x/crypto/ssh.Session).Close = c02eSessionClose
+//verif:replace@C01i (*golang.org/x/crypto/ssh.Session).Close = c02eSessionClose
 //verif:replace@C02e golang.org/x/crypto/ssh.Unmarshal = c14Unmarshal
+//verif:replace@C01i golang.org/x/crypto/ssh.Unmarshal = c14Unmarshal
 //verif:replace@C02e path/filepath.Glob = c02eGlob
+//verif:replace@C01i path/filepath.Glob = c02eGlob
 //verif:replace@C02e (*github.com/mimecast/dtail/internal/user/server.User).HasFilePermission = c02ePerm
+//verif:replace@C01i (*github.com/mimecast/dtail/internal/user/server.User).HasFilePermission = c02ePerm
 
 package server
 
@@ -40,6 +49,7 @@ type c02ePipe struct {
 	rest   []byte
 	closed chan struct{}
 	isDone bool
+	tap    func(b []byte) // sees every byte written (harness observation)
 }
 
 func c02eNewPipe() *c02ePipe {
@@ -49,8 +59,16 @@ func (p *c02ePipe) Write(b []byte) (int, error) {
 	if p.isDone {
 		return 0, io.ErrClosedPipe
 	}
+	if p.tap != nil {
+		// a transport write takes locks and may wait for window space before it reads the
+		// caller's bytes: a scheduling point
+		verifrt.Yield()
+	}
 	cp := make([]byte, len(b)) // the sender reuses its buffer (io.Copy)
 	copy(cp, b)
+	if p.tap != nil {
+		p.tap(cp)
+	}
 	p.ch <- cp
 	return len(b), nil
 }
@@ -90,6 +108,19 @@ type c02eWire struct {
 }
 
 var c02eW *c02eWire
+
+// several connections at once (C01i): one wire per dialled address, the session of a
+// client knows the wire of its connection
+var c02eWires map[string]*c02eWire
+var c02eSessionWire map[*gossh.Session]*c02eWire
+
+func c02eWireOf(s *gossh.Session) *c02eWire {
+	if w, ok := c02eSessionWire[s]; ok {
+		return w
+	}
+	return c02eW
+}
+
 var c02eServer *Server
 var c02eCtx context.Context
 
@@ -107,20 +138,32 @@ func (c *c02eChannel) Stderr() io.ReadWriter { return nil }
 
 // the client's view of x/crypto
 func c02eDial(network, addr string, cfg *gossh.ClientConfig) (*gossh.Client, error) {
-	return &gossh.Client{Conn: c02eClientConn{c02eW.conn}}, nil
+	if w, ok := c02eWires[addr]; ok {
+		return &gossh.Client{Conn: c02eClientConn{w.conn, w}}, nil
+	}
+	return &gossh.Client{Conn: c02eClientConn{c02eW.conn, c02eW}}, nil
 }
 
 // the client's end of the TCP connection: closing it ends the server's connection too
-type c02eClientConn struct{ *c14Conn }
+type c02eClientConn struct {
+	*c14Conn
+	w *c02eWire
+}
 
 func (c c02eClientConn) Close() error {
 	c.c14Conn.Close()
-	c02eW.c2s.Close()
+	c.w.c2s.Close()
 	return nil
 }
-func c02eNewSession(c *gossh.Client) (*gossh.Session, error) { return new(gossh.Session), nil }
-func c02eStdin(s *gossh.Session) (io.WriteCloser, error) { return c02eW.c2s, nil }
-func c02eStdout(s *gossh.Session) (io.Reader, error)     { return c02eW.s2c, nil }
+func c02eNewSession(c *gossh.Client) (*gossh.Session, error) {
+	s := new(gossh.Session)
+	if cc, ok := c.Conn.(c02eClientConn); ok && c02eSessionWire != nil {
+		c02eSessionWire[s] = cc.w
+	}
+	return s, nil
+}
+func c02eStdin(s *gossh.Session) (io.WriteCloser, error) { return c02eWireOf(s).c2s, nil }
+func c02eStdout(s *gossh.Session) (io.Reader, error)     { return c02eWireOf(s).s2c, nil }
 func c02eSessionClose(s *gossh.Session) error            { return nil }
 
 // Shell: the server side of the session starts (handleRequests with a shell request)
@@ -128,8 +171,9 @@ func c02eShell(s *gossh.Session) error {
 	reqs := make(chan *gossh.Request, 2)
 	reqs <- &gossh.Request{Type: "shell"}
 	u := &user.User{Name: "alice"}
+	w := c02eWireOf(s)
 	go func() {
-		c02eServer.handleRequests(c02eCtx, c02eW.conn, reqs, &c02eChannel{c02eW}, u)
+		c02eServer.handleRequests(c02eCtx, w.conn, reqs, &c02eChannel{w}, u)
 	}()
 	return nil
 }
@@ -261,4 +305,82 @@ func VerifC02eRemoteSession(nfiles, nlines int) {
 		return
 	}
 	verifrt.Reach("all-delivered")
+}
+
+// VerifC01iTwoRemoteSessions: two clients cat two different files from one
+// server at the same time over two connections (the real ServerConnection on
+// the client side, the real handleRequests with its copy loops on the server
+// side, slow files so that the transfers overlap): each client's output is its
+// own file, line by line - nothing of the other session's file.
+func VerifC01iTwoRemoteSessions(nlines int) {
+	dlog.VerifInstall(source.Client)
+	config.Common = &config.CommonConfig{SSHPort: 2222}
+	config.Server.MaxConcurrentCats = 2
+	config.Server.MaxConcurrentTails = 2
+	config.Server.Permissions = config.Permissions{Default: []string{"^/.*$"}}
+	fs.VerifFiles = nil
+	c02eServer = &Server{catLimiter: make(chan struct{}, 2), tailLimiter: make(chan struct{}, 2), sshServerConfig: &gossh.ServerConfig{}}
+	c02eWires = map[string]*c02eWire{}
+	c02eSessionWire = map[*gossh.Session]*c02eWire{}
+	serverCtx, stopServer := context.WithCancel(context.Background())
+	c02eCtx = serverCtx
+	type out struct{ got []byte }
+	outs := []*out{{}, {}}
+	var want []string
+	done := make(chan struct{}, 2)
+	for k := 0; k < 2; k++ {
+		var content []byte
+		for i := 0; i < nlines; i++ {
+			content = append(content, "session"+string(rune('A'+k))+"-line"+string(rune('0'+i))+"\n"...)
+		}
+		path := fs.VerifProvideNamed("/f"+string(rune('0'+k)), content)
+		var chunks []int
+		for i := 0; i < nlines; i++ {
+			chunks = append(chunks, len(content)/nlines)
+		}
+		fs.VerifFiles[path].Chunks = chunks
+		fs.VerifFiles[path].Pace = 400 * time.Millisecond
+		want = append(want, string(content))
+		addr := "srv" + string(rune('A'+k)) + ":2222"
+		c02eWires[addr] = &c02eWire{c2s: c02eNewPipe(), s2c: c02eNewPipe(),
+			conn: &c14Conn{id: k, kind: 4, user: "alice", closed: make(chan struct{}), chans: make(chan gossh.NewChannel, 2)}}
+		handler := &c01iHandler{Handler: handlers.NewClientHandler(addr), sink: outs[k]}
+		_ = handler
+		conn := connectors.NewServerConnection("srv"+string(rune('A'+k)), "alice", nil, c02eHostKeys{}, handlers.NewClientHandler(addr),
+			[]string{"cat:plain=true:quiet=true " + path + " regex:noop "})
+		// what this connection's server end sends is recorded at the client's end of its wire
+		w := c02eWires[addr]
+		o := outs[k]
+		w.s2c.tap = func(b []byte) { o.got = append(o.got, b...) }
+		ctx, cancel := context.WithCancel(context.Background())
+		go func() {
+			conn.Start(ctx, cancel, make(chan struct{}, 4), make(chan struct{}, 4))
+			done <- struct{}{}
+		}()
+	}
+	for k := 0; k < 2; k++ {
+		select {
+		case <-done:
+		case <-time.After(5 * time.Minute):
+			verifrt.Assert(false, "a session did not end by itself")
+		}
+	}
+	verifrt.Sleep(2 * time.Second)
+	stopServer()
+	for k := 0; k < 2; k++ {
+		// the wire carries the plain lines, each followed by the message delimiter, and the
+		// hidden close handshake at the end
+		got := strings.ReplaceAll(string(outs[k].got), "\xac", "")
+		if i := strings.Index(got, ".syn"); i >= 0 {
+			got = got[:i]
+		}
+		verifrt.Assert(got == want[k], "what a client receives differs from its file (content of another session's transfer, or damaged lines)")
+	}
+	c02eWires, c02eSessionWire = nil, nil
+	verifrt.Reach("both-intact")
+}
+
+type c01iHandler struct {
+	handlers.Handler
+	sink interface{}
 }
